@@ -101,15 +101,23 @@ def olabel(off):
 
 
 class MeshCase:
-    """A closed mesh normalised to bounding-box diagonal S, optionally rotated, then moved."""
+    """A closed mesh normalised to bounding-box diagonal S, optionally rotated, then moved.
 
-    def __init__(self, tag, V, F, S, off, rot=None):
+    With `edit` the mesh object has a history: it is built, asked ray / containment / proximity
+    questions (so that every derived structure exists), then its vertices are changed IN PLACE or
+    re-assigned - with no other access in between - and only then handed to the checks, which
+    judge every answer against the geometry the object has now.
+    """
+
+    def __init__(self, tag, V, F, S, off, rot=None, edit=None):
         self.tag = tag
         self.V = np.asarray(V, dtype=np.float64)
         self.F = np.asarray(F, dtype=np.int64)
         self.S = float(S)
         self.off = float(off)
         self.rot = None if rot is None else np.asarray(rot, dtype=np.float64)
+        self.edit = edit
+        self.primed_engines = None
 
     def vertices(self):
         V = self.V
@@ -126,24 +134,97 @@ class MeshCase:
 
         Vf = self.vertices()
         m = trimesh.Trimesh(vertices=Vf.copy(), faces=self.F.copy(), process=False)
-        return m, Vf[self.F]
+        if self.edit is None:
+            return m, Vf[self.F]
+        self.primed_engines = self._prime(m, Vf)
+        e = self.edit
+        kind, ax, amount = e["kind"], int(e.get("axis", 0)), float(e.get("amount", 0.0))
+        c = (Vf.min(axis=0) + Vf.max(axis=0)) / 2.0
+        if kind == "shift_inplace":
+            m.vertices[:, ax] += amount * self.S
+        elif kind == "scale_inplace":
+            m.vertices *= amount
+        elif kind == "resize_about_centre_inplace":
+            m.vertices[:] = c + (Vf - c) * amount
+        elif kind == "assign_shifted":
+            W = Vf.copy()
+            W[:, ax] += amount * self.S
+            m.vertices = W
+        elif kind == "assign_resized":
+            m.vertices = c + (Vf - c) * amount
+        else:
+            raise ValueError(kind)
+        W = np.array(m.vertices.view(np.ndarray), dtype=np.float64)
+        return m, W[self.F]
+
+    @staticmethod
+    def _prime(m, Vf):
+        """Ask the untouched mesh everything once; returns the ray engines built on it."""
+        import trimesh.ray.ray_triangle as rt
+        from trimesh import proximity
+
+        lo, hi = Vf.min(axis=0), Vf.max(axis=0)
+        P = np.array([lo - 0.2 * (hi - lo), (lo + hi) / 2.0, hi + 0.3 * (hi - lo), lo + 0.25 * (hi - lo)])
+        D = np.array([[0.3, 0.5, 0.8], [0.0, 0.0, 1.0], [-0.4, -0.5, -0.7], [1.0, 0.2, 0.1]])
+        engines = [("native", rt.RayMeshIntersector(m))]
+        try:
+            import trimesh.ray.ray_pyembree as re_
+
+            engines.append(("embree", re_.RayMeshIntersector(m)))
+        except BaseException:  # noqa
+            pass
+        for call in (
+            lambda: proximity.closest_point(m, P),
+            lambda: proximity.closest_point_naive(m, P),
+            lambda: m.nearest.on_surface(P),
+            lambda: m.nearest.vertex(P),
+            lambda: proximity.signed_distance(m, P),
+            lambda: m.contains(P),
+            lambda: m.ray.intersects_location(P, D),
+        ) + tuple((lambda eng=eng: eng.intersects_id(P, D, multiple_hits=True, return_locations=True)) for _n, eng in engines) + tuple(
+            (lambda eng=eng: eng.contains_points(P)) for _n, eng in engines
+        ):
+            try:
+                call()
+            except BaseException:  # noqa: priming only, the checks judge the later calls
+                pass
+        return engines
 
     def to_dict(self):
         return {
             "tag": self.tag, "V": self.V.tolist(), "F": self.F.tolist(), "S": self.S,
-            "off": self.off, "rot": None if self.rot is None else self.rot.tolist(),
+            "off": self.off, "rot": None if self.rot is None else self.rot.tolist(), "edit": self.edit,
         }
 
     @staticmethod
     def from_dict(d):
-        return MeshCase(d["tag"], d["V"], d["F"], d["S"], d["off"], d.get("rot"))
+        return MeshCase(d["tag"], d["V"], d["F"], d["S"], d["off"], d.get("rot"), d.get("edit"))
 
     @property
     def sl(self):
         return slabel(self.S)
 
     def cls(self):
-        return "S=%s:off=%s" % (self.sl, olabel(self.off))
+        return "S=%s:off=%s%s" % (self.sl, olabel(self.off), "" if self.edit is None else ":after_" + self.edit["kind"])
+
+
+EDITS = (
+    ("shift_inplace", (0.15, -0.15, 0.4)),
+    ("scale_inplace", (0.6, 1.5)),
+    ("resize_about_centre_inplace", (0.6, 1.4)),
+    ("assign_shifted", (0.2, -0.3)),
+    ("assign_resized", (0.7, 1.3)),
+)
+
+
+FIRST = ("rays", "contains", "proximity:on_surface", "proximity:closest_point", "proximity:closest_point",
+         "proximity:closest_point_naive")
+
+
+def random_edit(rng):
+    kind, amounts = EDITS[int(rng.integers(len(EDITS)))]
+    return {"kind": kind, "axis": int(rng.integers(3)), "amount": float(amounts[int(rng.integers(len(amounts)))]),
+            "first": FIRST[int(rng.integers(len(FIRST)))]}
 
 
 def _ico(sub):
@@ -212,6 +293,8 @@ def _exc_key(where, mc, e):
 def _engines(run, mc, mesh):
     import trimesh.ray.ray_triangle as rt
 
+    if mc.primed_engines:
+        return mc.primed_engines
     out = [("native", rt.RayMeshIntersector(mesh))]
     try:
         import trimesh.ray.ray_pyembree as re_
@@ -240,12 +323,19 @@ def gap_class(gap, offset):
 # rays
 
 
-def make_rays(rng, mesh, S, n):
+def make_rays(rng, mesh, S, n, T=None):
+    if T is None:
+        T = np.asarray(mesh.triangles, dtype=np.float64)
     """Returns O, D, oclass list, dclass list."""
-    lo, hi = np.array(mesh.bounds)
+    # (nothing here may touch `mesh`: in a history case the first access after the edit has to be
+    #  the query under test)
+    lo, hi = T.reshape(-1, 3).min(axis=0), T.reshape(-1, 3).max(axis=0)
     O = np.zeros((n, 3))
     D = np.zeros((n, 3))
     oc, dc = [], []
+    tri = np.asarray(T, dtype=np.float64)
+    w = rng.dirichlet((2.0, 2.0, 2.0))
+    shared = (tri[int(rng.integers(len(tri)))] * w[:, None]).sum(axis=0)
     for i in range(n):
         target = lo + (0.02 + 0.96 * rng.random(3)) * (hi - lo)
         r = int(rng.integers(0, 10))
@@ -281,6 +371,18 @@ def make_rays(rng, mesh, S, n):
         else:
             o = (lo + hi) / 2 + R.unit(rng.normal(size=3)) * S * (0.6 + 2 * rng.random())
             ocl = "random_outside"
+        v = rng.random()
+        if i and v < 0.04:
+            # the same ray twice in one batch
+            o, d, ocl, dcl = O[i - 1].copy(), D[i - 1].copy(), oc[-1], dc[-1] + "_repeated"
+        elif v < 0.16:
+            # several view points looking at ONE surface point: different rays of the batch report
+            # the same location
+            o = shared + R.unit(rng.normal(size=3)) * S * (0.5 + rng.random())
+            d = shared - o
+            if rng.random() < 0.5:
+                d = R.unit(d)
+            ocl, dcl = "viewpoint", "converging"
         O[i], D[i] = o, d
         oc.append(ocl)
         dc.append(dcl)
@@ -308,12 +410,14 @@ def check_rays(run, mc, mesh, T, O, D, oc=None, dc=None, engines=None, record=Tr
     mesh_scale = float(np.linalg.norm(np.ptp(T.reshape(-1, 3), axis=0)))
     eoff = embree_offset(mesh_scale)
     mdict = mc.to_dict()
+    Olist, Dlist = O.tolist(), D.tolist()
     lo, hi = T.reshape(-1, 3).min(axis=0), T.reshape(-1, 3).max(axis=0)
 
     def witness(i, engine, op, observed, expected):
         return {
             "check": "ray", "mesh": mdict, "engine": engine, "op": op,
-            "origin": O[i].tolist(), "direction": D[i].tolist(),
+            "origin": O[i].tolist(), "direction": D[i].tolist(), "ray": int(i),
+            "origins": Olist, "directions": Dlist,
             "observed": observed, "expected": expected,
         }
 
@@ -539,7 +643,7 @@ def line_gaps(T, P, direction, S, delta):
 
 
 def make_points(rng, mesh, T, S, n):
-    lo, hi = np.array(mesh.bounds)
+    lo, hi = T.reshape(-1, 3).min(axis=0), T.reshape(-1, 3).max(axis=0)
     c = (lo + hi) / 2
     P = np.zeros((n, 3))
     pc = []
@@ -719,11 +823,18 @@ def check_proximity(run, mc, mesh, T, P, pc=None, record=True, judge_sign=True):
                               wit(i, fn, {"point": cp[k].tolist(), "distance": float(dist[k])}, float(np.linalg.norm(cp[k] - P[i]))))
 
     allsel = list(range(n))
-    for fn, f, sel in (
+    routes = [
         ("on_surface", lambda q: mesh.nearest.on_surface(q), allsel),
         ("closest_point", lambda q: proximity.closest_point(mesh, q), allsel[: max(1, n // 4)]),
         ("closest_point_naive", lambda q: proximity.closest_point_naive(mesh, q), allsel[: max(1, min(n, 30))]),
-    ):
+    ]
+    first = (mc.edit or {}).get("first", "")
+    if first.startswith("proximity:"):
+        # history case: this function is the first thing to touch the edited mesh
+        routes.sort(key=lambda r: r[0] != first.split(":", 1)[1])
+        if first == "proximity:closest_point":
+            routes[0] = (routes[0][0], routes[0][1], allsel)
+    for fn, f, sel in routes:
         try:
             res = f(P[sel].copy())
         except Exception as e:  # noqa
@@ -836,8 +947,10 @@ def check_proximity(run, mc, mesh, T, P, pc=None, record=True, judge_sign=True):
 # ------------------------------------------------------------------------------------------
 
 
-def run_mesh_case(run, mc, n_rays, n_pts):
+def run_mesh_case(run, mc, n_rays, n_pts, history=None):
     rng = run.rng
+    if history is None:
+        history = rng.random() < 0.4
     try:
         mesh, T = mc.build()
     except Exception as e:  # noqa
@@ -846,14 +959,34 @@ def run_mesh_case(run, mc, n_rays, n_pts):
     run.count("mesh_cases")
     run.state("mesh_class", (mc.tag, mc.sl, olabel(mc.off), mc.rot is not None))
     engines = _engines(run, mc, mesh)
-    O, D, oc, dc = make_rays(rng, mesh, mc.S, n_rays)
-    check_rays(run, mc, mesh, T, O, D, oc, dc, engines=engines)
-    if mc.tag in RAYS_ONLY:
-        return
-    P, pc = make_points(rng, mesh, T, mc.S, n_pts)
-    if mc.tag not in NOT_SOLID:
-        check_contains(run, mc, mesh, T, P, pc, engines=engines)
-    check_proximity(run, mc, mesh, T, P, pc, judge_sign=mc.tag not in NOT_SOLID)
+    first = (mc.edit or {}).get("first", "rays")
+
+    def rays():
+        O, D, oc, dc = make_rays(rng, mesh, mc.S, n_rays, T)
+        check_rays(run, mc, mesh, T, O, D, oc, dc, engines=engines)
+
+    def points():
+        if mc.tag in RAYS_ONLY:
+            return
+        P, pc = make_points(rng, mesh, T, mc.S, n_pts)
+
+        def contains():
+            if mc.tag not in NOT_SOLID:
+                check_contains(run, mc, mesh, T, P, pc, engines=engines)
+
+        def prox():
+            check_proximity(run, mc, mesh, T, P, pc, judge_sign=mc.tag not in NOT_SOLID)
+
+        for step in ((prox, contains) if first.startswith("proximity") else (contains, prox)):
+            step()
+
+    for step in ((rays, points) if first == "rays" else (points, rays)):
+        step()
+    if mc.edit is None and history:
+        mh = MeshCase(mc.tag, mc.V, mc.F, mc.S, mc.off, mc.rot, edit=random_edit(rng))
+        run.count("edited_mesh_histories")
+        run.state("edit_history", (mh.edit["kind"], mh.edit["amount"], mh.edit["first"]))
+        run_mesh_case(run, mh, max(20, n_rays // 2), max(16, n_pts // 2), history=False)
 
 
 def workload(run):
